@@ -8,11 +8,11 @@ import RedisVerif.Lemmas.StreamFold
 Model: `Stream.compactWith` / `compactInterleaved` and `Stream.recover` (M4) over `RV.merge` (M1).
 `recState st` is what a node folds from `recover st`.
 
-* `compaction_preserves_recovery_repaired` — compactor with `mergeInsteadOfLatest` (and
-  NotFound-only "missing"), no tombstone GC: for EVERY fault oracle (hence also for a compaction
+* `compaction_preserves_recovery_current` (= `_repaired`) — the CURRENT tree: compactor with
+  `mergeInsteadOfLatest` (and NotFound-only "missing"), no tombstone GC: for EVERY fault oracle (hence also for a compaction
   that dies at any store call) `recState` after = `recState` before.  A corollary of C07 +
   `FoldACI.fold1_replace` (replacing updates by their merge does not change the fold).
-* `compaction_preserves_recovery_partial` — the code that exists, fault-free, under the
+* `compaction_preserves_recovery_partial` — the pinned commit (keep-latest), fault-free, under the
   decidable hypotheses `KeepLatestAgreesWithMerge`, `NoTombstoneDropped` (and no concurrent
   flush: `compaction_flush_interleaving_partial`).
 * `tombstone_gc_safe_partial` — with tombstone GC: the recovered states agree key by key except
@@ -21,7 +21,8 @@ Model: `Stream.compactWith` / `compactInterleaved` and `Stream.recover` (M4) ove
 * kernel-checked counterexamples for every excluded case: `equal_times_counterexample`,
   `expiry_some_then_none_counterexample`, `hash_two_replicas_counterexample`,
   `production_clock_counterexample`, `older_value_in_skipped_segment_counterexample` (also for
-  the repaired compactor), `flush_interleaving_counterexample` (also for the repaired compactor).
+  the current compactor: known finding), `flush_interleaving_counterexample` (also for the
+  current compactor: known finding).  The keep-latest counterexamples are fixed defects.
 -/
 namespace RedisVerif
 namespace C13
@@ -83,9 +84,9 @@ theorem compaction_preserves_recovery_repaired (F : Oracle) (cfg : CompactCfg) (
   rw [recState_of_inv c (compact_spec repairedCompact F cfg sz w hinv).1 hp.2 rid,
     recState_of_inv c hinv hcar rid, hp.1]
 
-/-! ## the code that exists -/
+/-! ## the pinned commit (keep-latest) -/
 
-/-- **compaction_preserves_recovery, partial (code that exists, fault-free run)**.  Missing for
+/-- **compaction_preserves_recovery, partial (pinned keep-latest compactor, fault-free run)**.  Missing for
     the full statement: layouts where keep-latest-by-time disagrees with merge (equal times from
     two replicas, expiry, hashes — counterexamples below), tombstone GC (`tombstone_gc_safe_partial`
     and its counterexamples), faults (C12), a concurrent flush (`flush_interleaving_counterexample`). -/
@@ -180,7 +181,7 @@ def cfgAll : CompactCfg := { target := 1000, minSegs := 2, maxPer := 5, cutoff :
 /-- two replicas write key 107 at the same Lamport time 5 -/
 def equalTimesOps : List Op := [.push (107, lww 1 5 1), .flush 100, .push (107, lww 2 5 2), .flush 100]
 
-/-- **Known finding C13:keep-latest:equal-times.**  Merge picks the greater stamp `(5, r2)`;
+/-- **Fixed defect C13:keep-latest:lww (equal times)** — pinned commit.  Merge picks the greater stamp `(5, r2)`;
     the compactor keeps the first delta it saw (strict `>` on the time only). -/
 theorem equal_times_counterexample :
     recState (after equalTimesOps).store 1 = some [(107, lww 2 5 2)] ∧
@@ -193,7 +194,7 @@ theorem equal_times_counterexample :
 def expiryOps : List Op :=
   [.push (101, { lww 1 3 1 with expiry := some 100000 }), .flush 100, .push (101, lww 2 4 1), .flush 100]
 
-/-- **Known finding C13:keep-latest:expiry.**  Merge keeps the maximum expiry, the compactor the
+/-- **Fixed defect C13:keep-latest:lww (expiry)** — pinned commit.  Merge keeps the maximum expiry, the compactor the
     latest delta's: recovery's expiry changes from `Some(100000)` to `None`. -/
 theorem expiry_some_then_none_counterexample :
     recState (after expiryOps).store 1 = some [(101, { lww 2 4 1 with expiry := some 100000 })] ∧
@@ -207,7 +208,7 @@ def hashOps : List Op :=
   [.push (104, hashOf [(102, Lww.set [1] ⟨1, 1⟩)] 1 1), .flush 100,
    .push (104, hashOf [(103, Lww.set [2] ⟨2, 2⟩)] 2 2), .flush 100]
 
-/-- **Known finding C13:keep-latest:hash.**  Merge unions the fields, the compactor keeps the
+/-- **Fixed defect C13:keep-latest:hash** — pinned commit.  Merge unions the fields, the compactor keeps the
     later delta only: field 102 (`f`) is lost. -/
 theorem hash_two_replicas_counterexample :
     recState (after hashOps).store 1 = some [(104, hashOf [(102, Lww.set [1] ⟨1, 1⟩), (103, Lww.set [2] ⟨2, 2⟩)] 2 2)] ∧
@@ -279,6 +280,25 @@ theorem C13_interleaving_false (restore : Bool) : ¬ C13_compaction_flush_interl
   have := h cfgAll 100 (after raceOps) 1 (some (racePers, 100)) (by decide) (storeInv_after _) rfl (by decide)
   revert this
   cases restore <;> decide
+
+
+/-! ## the current tree -/
+
+theorem current_compact_is_repaired : current.compact = repairedCompact := rfl
+
+/-- **compaction_preserves_recovery for the CURRENT tree** (`Stream.compact`), no tombstone GC:
+    every fault oracle, every layout with coherent content -/
+theorem compaction_preserves_recovery_current (F : Oracle) (cfg : CompactCfg) (sz : Nat) (w : World)
+    (rid : Nat) (hinv : StoreInv w.store) (hc : Coherent (content w.store)) (hgc : cfg.cutoff = 0) :
+    recState (compact F cfg sz w).1.store rid = recState w.store rid :=
+  compaction_preserves_recovery_repaired F cfg sz w rid hinv hc hgc
+
+/-- the witnesses of the pinned commit's keep-latest defect are preserved by the current tree -/
+example :
+    recState (compact allOk cfgAll 100 (after equalTimesOps)).1.store 1 = recState (after equalTimesOps).store 1 ∧
+    recState (compact allOk cfgAll 100 (after expiryOps)).1.store 1 = recState (after expiryOps).store 1 ∧
+    recState (compact allOk cfgAll 100 (after hashOps)).1.store 1 = recState (after hashOps).store 1 := by
+  decide
 
 /-! ## non-vacuity -/
 
